@@ -598,7 +598,7 @@ static void note_freqs(const double *v, int n)
 	double f = v[idx[k]];
 	int seen = 0;
 
-	for (int i = 0; i < n_probe_freqs; ++i)
+	for (int i = 0; i < n_probe_freqs && i < MAX_PROBE_FREQS; ++i)
 	    if (probe_freqs[i] == f)
 		seen = 1;
 	if (!seen)
